@@ -160,6 +160,15 @@ def run(ctx):
     }
 
 
+_run_without_compiled = run
+
+
+def run(ctx):
+    _run_without_compiled(ctx)
+    from tools import nbrows
+    nbrows.check(ctx, ['equal', '==', 'not_equal', '!=', 'isclose', 'isclose_tol'], 'the comparisons')
+
+
 def replay(rec):
     import vector  # noqa: F401
     f = rec.get("failure") or {}
